@@ -486,6 +486,9 @@ def ret(key, *args):
         return UNDEF
 
 
+retc = ret
+
+
 def ret_make_converter(ty, handlers):
     from pane.convert import make_converter
     if ty is UNDEF or handlers is UNDEF:
